@@ -49,6 +49,7 @@ package generator
 //@ emitted func writeJSON(w io.Writer, v interface{}, name string)
 //@   option props=C14,C02
 //@   option keepsResp=true
+//@   option event=writeJSON                             // callers see one body_json event
 //@   requires nResp(trace) >= 1                         // the status line goes first
 //@   ensures nResp(trace) == nResp(old(trace))
 
@@ -62,3 +63,27 @@ package generator
 // Environment preconditions (engine/vc/envpre.go): *http.Request parameters
 // and their URL are non-nil, pointer receivers and writers are non-nil,
 // operation handler funcs are set.
+
+// Optional / nullable wrappers (hole-free: one proof serves every spec).
+
+//@ emitted func (Maybe).Get() (v T, ok bool)
+//@   pure
+//@   option props=C02,C04,C14
+//@   ensures ok == m.IsSet
+//@   ensures ok ==> v == m.Value
+
+//@ emitted func (Nullable).Get() (v T, ok bool)
+//@   pure
+//@   option props=C02,C04,C14
+//@   ensures ok == m.IsSet
+//@   ensures ok ==> v == m.Value
+
+// Write family (instantiated per documented response by engine/vc/writes.go;
+// DESIGN.md §4.2): respHead / respBody are the header and body views of the
+// event trace.
+//
+//   emitted func (<Resp>).Write(w http.ResponseWriter [, code int])
+//     ensures respHead(trace) == head_wh(head_set?(head_addall*(respHead(old(trace)), K_i, fmt_i(r.Headers.F_i))..., "Content-Type", CT), CODE)
+//     ensures respBody(trace) == body_json|body_copy?(respBody(old(trace)), r.Body)
+//   emitted func (<Resp>).write<Op>(w http.ResponseWriter)
+//     the same with CODE = the status <Op> documents for this response
